@@ -60,6 +60,25 @@ PrimeLineOk(r) ==
   LET a == N(r.a)
   IN IF Decidable(a) THEN r.res = B01(IsPrimeMR(a))
      ELSE (r.res = 1 /\ Has(r, "cert") /\ CertProves(r.cert, a)) \/ (r.res = 0 /\ PrimeFails(a, r))
+\* a window [A, A + cnt): table of primality over [A, A + cnt + margin), least odd prime >= each start from the table
+WinBad(r) ==
+  LET A == N(r.a)
+      cnt == Len(r.resW)
+      TL == cnt + r.margin
+      T == Strict([j \in 1..TL |-> B01(SpecPrime(Norm(AddInt(A, j - 1))))])
+      odd(j) == (Get(A, 1) + j - 1) % 2 = 1
+      \* NX[j] = least k >= j with T[k] = 1 and A + k - 1 odd (0: none in the table); built from the top
+      nxr == FoldLeft(LAMBDA acc, j : LET v == IF T[j] = 1 /\ odd(j) THEN j ELSE acc[2] IN <<Append(acc[1], v), v>>,
+                      <<<<>>, 0>>, Reverse(Rng(1, TL)))
+      NX == Reverse(nxr[1])
+      nextOff(i) == LET l == BitLen(Norm(AddInt(A, i)))  k == NX[i + 1]
+                    IN IF l <= 1 THEN -1
+                       ELSE IF k # 0 THEN (IF BitLen(Norm(AddInt(A, k - 1))) = l THEN k - 1 ELSE -1)
+                       ELSE IF BitLen(Norm(AddInt(A, TL))) > l THEN -1 ELSE -3          \* -3: the table does not decide
+  IN {i \in 0..(cnt - 1) : r.resW[i + 1] # T[i + 1]}
+     \cup {1000 + i : i \in {i \in 0..(cnt - 1) : r.resN[i + 1] # T[i + 1]}}
+     \cup (IF Has(r, "nextW") THEN {2000 + i : i \in {i \in 0..(cnt - 1) : r.nextW[i + 1] # nextOff(i)}} ELSE {})
+     \cup (IF Has(r, "nextN") THEN {3000 + i : i \in {i \in 0..(cnt - 1) : r.nextN[i + 1] # nextOff(i)}} ELSE {})
 NextOffsets(r) ==
   LET A == N(r.a)
   IN {i \in 0..(Len(r.res) - 1) :
@@ -74,7 +93,9 @@ NextLineOk(r) ==
         ELSE Has(r, "trials") /\ r.trials >= 0 /\ r.found = 0       \* not among the first trials candidates
 
 \* ---- binary polynomials
-IrredSpec(f) == PDeg(f) >= 1 /\ PIsIrred(f)
+\* for degree >= 2: a zero constant term means x | f, an even number of terms means (x + 1) | f
+IrredSpec(f) == LET n == PDeg(f)
+                IN n >= 1 /\ (n = 1 \/ (PBit(f, 0) = 1 /\ PWeight(f) % 2 = 1 /\ PIsIrred(f)))
 
 \* ---- dates
 DateBigOk(r) == LET v == N(r.m)
@@ -92,10 +113,12 @@ Bad(r) ==
                                                                    ELSE IF k = r.pos + 2 THEN v % 32 ELSE r.base[k]]))
     [] r.op = "dateYMD" -> BadOffsets(r.res, LAMBDA v : DateIsValidN(N(r.y), v \div 33, v % 33))
     [] r.op = "dateBig" -> Scalar(DateBigOk(r))
+    [] r.op = "win" -> WinBad(r)
     [] r.op = "primeWin" -> LET A == N(r.a) IN BadOffsets(r.res, LAMBDA i : SpecPrime(Norm(AddInt(A, i))))
     [] r.op = "nextWin" -> NextOffsets(r)
     [] r.op = "irredWin" -> BadOffsets(r.res, LAMBDA i : IrredSpec(<<r.a + i>>))
-    [] r.op = "belsValM" -> Scalar((r.rc = 0) = BelsValM(r.m, r.len) /\ (Has(r, "irred") => r.irred = B01(BelsValM(r.m, r.len))))
+    [] r.op = "belsValM" -> Scalar(LET v == r.len \in {16, 24, 32} /\ Len(r.m) = r.len /\ IrredSpec(BelsPoly(r.m, r.len))
+                                   IN (r.rc = 0) = v /\ (Has(r, "irred") => r.irred = B01(v)))
     [] r.op = "ppIrred" -> Scalar(r.res = B01(IrredSpec(POfOctets(r.a))))
     [] r.op = "isPrime" -> Scalar(PrimeLineOk(r))
     [] r.op = "sgPrime" -> Scalar(LET p == Norm(AddInt(MulInt(N(r.a), 2), 1))
